@@ -19,6 +19,10 @@ pub(crate) mod table;
 
 pub(crate) mod table_spec;
 pub(crate) mod uf;
+#[cfg(egglog_verif)]
+pub(crate) mod verif_hook;
+#[cfg(egglog_verif)]
+pub use verif_hook::{verif_plan_sink_start, verif_plan_sink_take};
 
 #[cfg(test)]
 mod tests;
